@@ -19,6 +19,7 @@
 #include "lib/zcklib.hpp"
 #include "gen/gens.hpp"
 #include "gen/dl.hpp"
+#include <set>
 
 using pbt::Ctx; using pbt::Bytes;
 
@@ -86,7 +87,13 @@ static std::string retry_run(const Bytes &T0, int limit, const gen::ZFile &B, co
 
 static void prop(Ctx &c) {
     gen::ZFileOpts o; o.max_chunks = 12; o.max_chunk = c.chance(2, 3) ? 24 : 400; o.allow_empty = false; o.allow_dups = c.rarely(4);
-    gen::ZParams qb = gen::zparams(c, o); gen::ZFile B = gen::zfile_build(c, qb); size_t n = B.nchunks();
+    gen::ZParams qb = gen::zparams(c, o);
+    // large responses: a few chunks of 20-60 KB, so that single callback invocations carry more than the library's 32 KiB block
+    // (a transport with a large buffer, or the caller handing over a whole response it has already received)
+    bool big = c.gver >= 4 && c.rarely(6);
+    if (big) { while (qb.chunks.size() > 6) qb.chunks.pop_back(); size_t nb = 2 + c.draw(1); for (size_t k = 0; k < nb; k++) { Bytes b(20000 + c.draw(40000)); gen::fill_random(b.data(), b.size(), c.draw(0xffff)); if (c.boolean()) for (auto &x : b) x &= 0x1f; size_t at = c.draw(qb.chunks.size()); qb.chunks.insert(qb.chunks.begin() + at, b); } if (qb.level > 3) qb.level = 3; c.label("large-response"); }
+    gen::ZFile B = gen::zfile_build(c, qb); size_t n = B.nchunks();
+    dl::g_max_piece = big ? (size_t)1 << 30 : 16384;          // large responses: pieces are exactly what the cut set says, however long
     // target: header + validity pattern
     Bytes T0 = B.file; std::vector<int> want_valid(n, 1); std::string pat; Bytes T0_after;
     for (size_t i = 0; i < n; i++) { size_t off = B.off(i), cl = B.clen(i); if (!cl) { pat += "+"; continue; }
@@ -151,7 +158,17 @@ static void prop(Ctx &c) {
         if (x.flags != base.flags) { c.extra_evals = runs; c.fail("fragmentation-changes-flags", "cut at {" + cs + "}: flags " + fstr(x.flags) + ", unfragmented " + fstr(base.flags)); }
         if (x.file != base.file) { size_t p = 0; while (p < x.file.size() && p < base.file.size() && x.file[p] == base.file[p]) p++; c.extra_evals = runs; c.fail("fragmentation-changes-file", "cut at {" + cs + "}: final file differs from the unfragmented run at byte " + std::to_string(p)); }
     };
-    if (L >= 2) {
+    if (L >= 2 && L > 6000) {
+        // too long to enumerate: every cut inside and right around a part header, then the rest in ONE piece (and the mirror image:
+        // everything up to the cut in one piece), pairs with one cut in a part header, random cuts, 16 KiB and 40 KiB pieces
+        std::set<size_t> P; for (size_t k = 0; k + 1 < resp.part_header_spans.size(); k += 2) for (size_t p = resp.part_header_spans[k] > 4 ? resp.part_header_spans[k] - 4 : 1; p <= resp.part_header_spans[k + 1] + 4 && p < L; p++) if (p >= 1) P.insert(p);
+        pbt::Rng r(c.draw(0xffff)); for (int t = 0; t < 150; t++) P.insert(1 + r.below(L - 1));
+        for (size_t p : P) one({p});
+        std::vector<size_t> hp; for (size_t p : P) if (interesting(p)) hp.push_back(p);
+        for (int t = 0; t < (c.tier ? 600 : 150) && !hp.empty(); t++) { size_t p = hp[r.below(hp.size())], q = 1 + r.below(L - 1); if (p == q) continue; one({std::min(p, q), std::max(p, q)}); }
+        for (size_t step : {(size_t)16384, (size_t)40000, (size_t)32768, (size_t)1000}) { std::vector<size_t> cs; for (size_t p = step; p < L; p += step) cs.push_back(p); one(cs); if (!hp.empty()) { size_t h0 = hp[r.below(hp.size())]; std::vector<size_t> c2; for (size_t p = h0; p < L; p += step) c2.push_back(p); one(c2); } }
+        for (int t = 0; t < 6; t++) one(dl::gen_cuts(c, L));
+    } else if (L >= 2) {
         for (size_t p = 1; p < L; p++) one({p});                                     // ALL 1-cut partitions
         bool all2 = L <= (c.tier ? 420u : 220u);
         if (all2) { for (size_t p = 1; p < L; p++) for (size_t q = p + 1; q < L; q++) one({p, q}); c.label("all-2-cuts"); }
